@@ -127,7 +127,7 @@ pub fn trace_for(prop: &str, item: &Item) -> Trace {
     let (nodes, events, workload) = match item {
         Item::Seq { backend, init, ops, slot } => {
             let nodes = vec![NodeSpec { backend: *backend, keys: vec![3, 9, 11] }];
-            let mut ev = vec![Event::Build { node: 0, slot: 0, calls: init_calls(*init) }];
+            let mut ev = vec![Event::Build { node: 0, slot: 0, calls: init_calls(*init), reuse: None }];
             for (i, o) in ops.iter().enumerate() {
                 // the last call of a sequence may be made with the node's second key (re-keying)
                 let s = if i + 1 == ops.len() { *slot } else { 0 };
@@ -153,6 +153,7 @@ pub fn trace_for(prop: &str, item: &Item) -> Trace {
                         BCall::Udp4(port),
                         BCall::Udp6(port),
                     ],
+                    reuse: None,
                 });
                 ev.push(Event::Publish { node: 0, form: Form::Binary, deliver: true });
                 let q = port.wrapping_mul(40503).wrapping_add(1);
